@@ -47,7 +47,7 @@ func compileCommandSites(c *an.Ctx, r *runnerRoles) []ccSite {
 			if kind == "?" {
 				// the command is a parameter of a shared helper: classify by its callers
 				kinds := map[string]bool{}
-				for _, src := range c.P.DeepSources(call.Call.Args[1], 2, true) {
+				for _, src := range c.P.DeepSources(call.Call.Args[1], 3, true) {
 					kinds[commandKind(src, nil)] = true
 				}
 				var ks []string
@@ -182,7 +182,12 @@ func checkC09(c *an.Ctx) {
 	for _, site := range compileCommandSites(c, r) {
 		key := an.Short(site.fn) + ":CompileCommand(" + site.kind + ")"
 		dir := an.AccessPath(argOf(site.call, cc, "dir"))
-		c.Check(dir.LastField() == "Dir" && an.TypeIs(dir.Base.Type(), "pkg/task", "Task") && len(dir.Fields) == 1, "C09.4", key+":dir", site.call.Pos(),
+		okDir := dir.LastField() == "Dir" && an.TypeIs(dir.Base.Type(), "pkg/task", "Task") && len(dir.Fields) == 1
+		if !okDir {
+			// handed over through a helper's parameter or a parameter bundle
+			okDir = p.DeepFieldProvCallers(argOf(site.call, cc, "dir")) == "Task.Dir"
+		}
+		c.Check(okDir, "C09.4", key+":dir", site.call.Pos(),
 			"passes the task's Dir", "does not pass the task's Dir as the job's dir: "+dir.String())
 		chains := cfg.Chains(argOf(site.call, cc, "env"))
 		if site.kind == "condition" {
